@@ -202,6 +202,16 @@ def run_tls(sc, trace=False):
     opts = sc.get("opts", [])
     ct = sc.get("container", {})
     pkts = cap.pkts
+    if sc.get("stale_first"):
+        # the capture begins with the tail of an OLDER connection on the same 4-tuple: one server->client segment holding one whole record
+        # (sequence numbers unrelated to the new connection's).  The session is then opened by a server->client segment.
+        from wire.l2l4 import tcp_frame
+        import random as _r
+        rr = _r.Random(sc["stale_first"])
+        sq, ak = rr.randrange(1 << 32), rr.randrange(1 << 32)          # (drawn first: checks recompute the stale sequence number from the seed)
+        body = bytes(rr.getrandbits(8) for _ in range(rr.choice([24, 40, 333])))
+        stale = tcp_frame(flows[0], "s", sq, ak, R.record(23, 0x0303, body))
+        pkts = [(pkts[0][0] - 5000, stale)] + list(pkts)
     if ct.get("sub"):      # sub-microsecond parts: timestamps become rationals (numerator, denominator) of seconds
         pkts = [((ts * 1000 + (i * 377) % 1000, 10 ** 9), fr) for i, (ts, fr) in enumerate(cap.pkts)]
     data = pcapng_bytes(pkts, le=ct.get("le", True), tsresol=ct.get("tsresol"), tsoffset=ct.get("tsoffset"),
